@@ -366,7 +366,59 @@ func lockLossScenario(kind string) string {
 	return ""
 }
 
+// lockNamesScenario: Lockers are identified by (storage, path, name): different names never exclude each
+// other, the same name excludes across Locker objects and providers, a name is not confused with a name it
+// is a prefix of, and all of it leaves no record behind.
+func lockNamesScenario() string {
+	st := inmem.New()
+	p1 := dist.NewKvsLockProvider(st, "/names/")
+	p2 := dist.NewKvsLockProvider(st, "/names/")
+	defer p1.Shutdown()
+	defer p2.Shutdown()
+	bg := context.Background()
+	x1 := p1.NewLocker("x").(tryLocker)
+	x1b := p1.NewLocker("x").(tryLocker)
+	x2 := p2.NewLocker("x").(tryLocker)
+	y1 := p1.NewLocker("y").(tryLocker)
+	xy := p2.NewLocker("xy").(tryLocker)
+	xs := p2.NewLocker("x/").(tryLocker)
+	if !x1.TryLock(bg) {
+		return "TryLock on a free name failed"
+	}
+	defer func() { recover() }()
+	for name, l := range map[string]tryLocker{"y": y1, "xy": xy, "x/": xs} {
+		if !l.TryLock(bg) {
+			return fmt.Sprintf("name %q cannot be locked while the DIFFERENT name \"x\" is held", name)
+		}
+		l.Unlock()
+	}
+	if x2.TryLock(bg) {
+		return "the same name was acquired through another provider while it is held"
+	}
+	if x1b.TryLock(bg) {
+		return "the same name was acquired through a second NewLocker call of the same provider while it is held"
+	}
+	x1.Unlock()
+	if !x2.TryLock(bg) {
+		return "after Unlock the name cannot be acquired through the other provider"
+	}
+	x2.Unlock()
+	if it, err := st.ListKeys(bg, "*"); err == nil && it.HasNext() {
+		k, _ := it.Next()
+		return "a lock record is left although every holder has unlocked: " + k
+	}
+	return ""
+}
+
 func runLockLoss(ctx *Ctx) {
+	ctx.R.Case("lockloss")
+	ctx.R.Nontrivial("names")
+	ctx.R.Op("scenario names", "ok")
+	if bad := lockNamesScenario(); bad != "" {
+		ctx.R.Quiet("mon C04-names-independent", bad)
+	} else {
+		ctx.R.Quiet("mon C04-names-independent", "ok")
+	}
 	for _, kind := range []string{"lock", "try", "ctx"} {
 		ctx.R.Case("lockloss")
 		ctx.R.Nontrivial(kind)
